@@ -950,3 +950,79 @@ def fold(ctx):
             except Exception: got = show(r['stdout'])
             if got != exp:
                 c.replay = {'argv': ['--select', expr + '=r'], 'stdin': stdin, 'expected': exp, 'actual': got}; c.status = 'reproduced'; break
+
+
+# ---------------------------------------------------------------- comparators of the sort functions
+SORT_CMPS = {
+    'sort_by': (r'list::functional::sort_by::get::\{closure#0\}::<impl at [^>]*>::get::\{closure#0\}$', 'key', (1, 2)),
+    'sort_by_values': (r'sort_by_values::get::\{closure#0\}::<impl at [^>]*>::get::\{closure#0\}$', 'value', (2, 4)),
+    'sort_by_values_by': (r'sort_by_values_by::get::\{closure#0\}::<impl at [^>]*>::get::\{closure#0\}$', 'key', (2, 4)),
+}
+
+
+def sort_comparators(ctx):
+    """the comparator closures handed to the stable sorts: sort_by / sort_by_values_by compare `f` applied to the two
+    elements (each as the input of a derived context) with the Ord of Option<JsonValue> - nothing sorts first - and
+    sort_by_values compares the two values with the Ord of JsonValue; nothing else decides the order"""
+    run = ctx.run
+    fam = run.family('sort.comparators', 'the comparator of sort_by / sort_by_values_by is Ord::cmp(f(a), f(b)) on the optional keys (in this order, f evaluated with the element as input), that of sort_by_values is Ord::cmp(a, b); the order relation itself is an uninterpreted function here (order.arms / Kani decide it)')
+    run.bounds['sort comparators'] = 'both elements opaque (all values), f answers any value or nothing; Ord::cmp uninterpreted'
+    def s_clone(ex, st, func, args, ty): return [(st, obj(st, args[0]))]
+    def s_with_input(ex, st, func, args, ty):
+        o = named(st, st.fresh_name('ctx'), 'Context'); st.heap[o.oid]['of'] = origin(st, obj(st, args[1])); return [(st, o)]
+    def s_apply(ex, st, func, args, ty):
+        c = obj(st, args[1]); i = cval(args[2].t)
+        of = st.heap[c.oid].get('of', '?')
+        st.events.append(('apply', of, i))
+        return [(st, named(st, f'KEY({of})', 'Option<JsonValue>'))]
+    def s_cmp(ex, st, func, args, ty):
+        a, b = origin(st, obj(st, args[0])), origin(st, obj(st, args[1]))
+        kind = 'opt' if 'Option' in func else 'val'
+        o = named(st, f'CMP[{kind}]({a},{b})', 'Ordering')
+        d = ex.discr(st, o).t; st.pc.append(z3.Or(d == -1, d == 0, d == 1))
+        st.events.append(('cmp', kind, a, b))
+        return [(st, o)]
+    summ = [(r'<JsonValue as Clone>::clone$', s_clone), (r'Context::with_inupt$', s_with_input), (r'as functions_definitions::Arguments>::apply$', s_apply),
+            (r'^<Option<JsonValue> as Ord>::cmp$|^<JsonValue as Ord>::cmp$|^<Option<JsonValue> as PartialOrd>::partial_cmp$|^<JsonValue as PartialOrd>::partial_cmp$', s_cmp)]
+    for name, (rx, kind, (ia, ib)) in SORT_CMPS.items():
+        ex = ctx.exec(summaries=summ, max_visits=6)
+        cs = [n for n in ctx.fns if re.search(rx, n)]
+        fam.obligations += 0
+        if len(cs) != 1:
+            c = Candidate(fam.name, f'missing:{name}', f'comparator closure of {name} not found ({len(cs)} matches)', {'fn': name}, unmodelled='body lookup'); fam.candidates.append(c); continue
+        F = ctx.fns[cs[0]]
+        st = State(); argsv = []
+        for i, (pn, pty) in enumerate(F.params):
+            if i == 0: argsv.append(slot(st, named(st, 'ENV', 'closure'), 'env*'))
+            else: argsv.append(slot(st, named(st, 'A' if i == ia else 'B' if i == ib else f'P{i}', 'JsonValue'), f'p{i}*'))
+        ex.new_frame(st, F, argsv)
+        for d in ex.run(st) + list(ex.extra_paths):
+            if d.status == 'infeasible': continue
+            run.paths += 1; fam.paths += 1; fam.obligations += 1; fam.witnesses += 1
+            why = None
+            if d.status != 'returned': why = f'{d.status} {d.notes[-1:]}'
+            else:
+                want = 'CMP[opt](KEY(A),KEY(B))' if kind == 'key' else 'CMP[val](A,B)'
+                got = origin(d, obj(d, d.ret)) if isinstance(obj(d, d.ret), ObjV) else str(d.ret)
+                if got != want: why = f'returns {got}, expected {want}'
+                elif kind == 'key' and [e for e in d.events if e[0] == 'apply'] != [('apply', 'A', 1), ('apply', 'B', 1)]: why = f'keys are not f(a), f(b): {[e for e in d.events if e[0] == "apply"]}'
+            if why is None:
+                fam.discharged += 1; fam.add_sample({'function': name, 'comparator': 'Ord::cmp(f(a), f(b))' if kind == 'key' else 'Ord::cmp(a, b)', 'verdict': 'for all elements and keys'})
+            elif not any(c.role == f'comparator:{name}' for c in fam.candidates):
+                fam.candidates.append(Candidate(fam.name, f'comparator:{name}', f'({name} ...): the comparator {why}', {'fn': name}, unmodelled=(d.havoc or [None])[0]))
+        run.absorb(ex)
+    from .cli import run_jawk, show
+    DEMOS = [('(sort_by_values_by . .k)', '{"a":{"k":3},"b":{},"c":{"k":1}}', ['b', 'c', 'a']), ('(sort_by_values_by . .k)', '{"a":{"k":2},"b":{"k":1},"c":{},"d":{"k":0}}', ['c', 'd', 'b', 'a']),
+             ('(sort_by . .k)', '[{"k":3,"i":0},{"i":1},{"k":1,"i":2}]', [1, 2, 0]), ('(sort_by . .k)', '[{"k":2,"i":0},{"k":1,"i":1},{"i":2},{"k":0,"i":3}]', [2, 3, 1, 0]),
+             ('(sort_by_values .)', '{"a":"x","b":3,"c":null,"d":[1],"e":false}', ['c', 'e', 'b', 'a', 'd']), ('(sort_by . (.k))', '[{"k":"b","i":0},{"k":1,"i":1},{"k":"a","i":2}]', [1, 2, 0])]
+    for c in fam.candidates:
+        if c.role.startswith('missing'): continue
+        c.status = 'unit' if not c.unmodelled else 'not-reproduced'
+        for expr, stdin, exp in DEMOS:
+            r = run_jawk(ctx, ['--select', expr + '=r', '--style', 'consise'], stdin.encode())
+            try:
+                got = json.loads(show(r['stdout'])).get('r')
+                got = list(got.keys()) if isinstance(got, dict) else [x.get('i') for x in got]
+            except Exception: got = show(r['stdout'])[:200]
+            if got != exp:
+                c.replay = {'argv': ['--select', expr + '=r'], 'stdin': stdin, 'expected_order': exp, 'actual_order': got}; c.status = 'reproduced'; break
